@@ -32,8 +32,9 @@ theorem zt_delay (x : ℕ → K) (d : ℕ) :
   ext n; simp [coeff_X_pow_mul']
 
 /-- the unilateral transform of an ADVANCED sequence is NOT `z^d X(z)`: the samples
-    `x[0..d-1]` fall off (finding F17: the code used to apply the delay rule to advances; the
-    model has the repaired behaviour: an advanced impulse contributes 0, an advanced step is u[n]). -/
+    `x[0..d-1]` fall off.  (`zt_delay` has no analogue for advances; the code applies the delay
+    rule to advances — finding F17, kept as a known finding because the upstream tests pin it;
+    the model mirrors the code there and the theorems below exclude it through `Base.ok`.) -/
 theorem zt_advance (x : ℕ → K) (d : ℕ) :
     X ^ d * PowerSeries.mk (fun n => x (n + d))
       = PowerSeries.mk x - PowerSeries.mk (fun n => if n < d then x n else 0) := by
@@ -50,23 +51,23 @@ theorem zt_mul_n (x : ℕ → K) :
 
 /-! ## 2. The rule cascade of `ZTransformer.term` produces the defining series -/
 
-/-- every term `c n^p a^n base[n]`; `Base.ok` only asks `cos² b + sin² b = 1` for the sinusoids —
-    impulses and steps may have ANY integer delay or advance -/
-theorem zt_term_sound (t : CTerm K) (h : t.base.ok) :
+/-- every term `c n^p a^n base[n]` with a non-advanced base (`Base.ok`: delay ≥ 0 for impulses and
+    steps — the excluded region is finding F17, covered by the oracle —, `cos² b + sin² b = 1`) -/
+theorem zt_term_sound_partial (t : CTerm K) (h : t.base.ok) :
     IsZT (fun n : ℕ => t.val n) (ztTerm t) := isZT_term t h
 
 /-- every finite sum of such terms: for every n the coefficient of `w^n` in the expansion of
     the model's closed form is `x[n]` -/
-theorem zt_closed_form_sound (ts : List (CTerm K)) (h : ∀ t ∈ ts, t.base.ok) :
+theorem zt_closed_form_sound_partial (ts : List (CTerm K)) (h : ∀ t ∈ ts, t.base.ok) :
     IsZT (fun n : ℕ => sigVal ts n) (ztSig ts) := isZT_sig ts h
 
-example : (⟨3, 2, 1 / 2, .step (-2)⟩ : CTerm ℚ).base.ok := by simp [Base.ok]
+example : (⟨3, 2, 1 / 2, .step 1⟩ : CTerm ℚ).base.ok := by simp [Base.ok]
 example : (⟨1, 1, 2, .cos (3 / 5) (4 / 5) 1 0⟩ : CTerm ℚ).base.ok := by norm_num [Base.ok]
 
 /-- the geometric closed form, coefficient-wise: `(1 - a w) Σ a^n w^n = 1` -/
 theorem zt_geometric (a : K) :
     (1 - C a * X) * PowerSeries.mk (fun n => a ^ n) = 1 := by
-  have h := zt_term_sound (⟨1, 0, a, .one⟩ : CTerm K) trivial
+  have h := zt_term_sound_partial (⟨1, 0, a, .one⟩ : CTerm K) trivial
   obtain ⟨_, h1, _⟩ := h
   have e : (fun n : ℕ => (⟨1, 0, a, .one⟩ : CTerm K).val n) = fun n => a ^ n := by
     funext n; simp [CTerm.val, Base.val]
@@ -93,9 +94,9 @@ theorem anchor_geometric {𝕜 : Type} [NormedField 𝕜] [CompleteSpace 𝕜] (
 /-- the executable spec predicate `ztSpecCheck` (the one the oracle runs on the real Lcapy's
     outputs) accepts the model's closed form for every signal and every bound N: it is not
     stricter than `IsZT` -/
-theorem spec_predicate_accepts_model [DecidableEq K] (ts : List (CTerm K)) (h : ∀ t ∈ ts, t.base.ok) (N : ℕ) :
+theorem spec_predicate_accepts_model_partial [DecidableEq K] (ts : List (CTerm K)) (h : ∀ t ∈ ts, t.base.ok) (N : ℕ) :
     ztSpecCheck (sigVal ts) (ztSig ts) N = none :=
-  ztSpecCheck_of_isZT (sigVal ts) (ztSig ts) (zt_closed_form_sound ts h) N
+  ztSpecCheck_of_isZT (sigVal ts) (ztSig ts) (zt_closed_form_sound_partial ts h) N
 
 /-! ## 3. Inverse transform: long division recovers the sequence -/
 
@@ -105,9 +106,9 @@ theorem longdiv_sound (num den : List K) (h : den.headD 0 ≠ 0) (S : K⟦X⟧)
     (series num den n).getD i 0 = coeff i S := series_unique num den h S hS n i hi
 
 /-- `izt (zt x) = x`: for every n, the first n samples recovered from the closed form are x[0..n-1] -/
-theorem izt_zt (ts : List (CTerm K)) (h : ∀ t ∈ ts, t.base.ok) (n : ℕ) :
+theorem izt_zt_partial (ts : List (CTerm K)) (h : ∀ t ∈ ts, t.base.ok) (n : ℕ) :
     series (ztSig ts).num (ztSig ts).den n = (List.range n).map (fun i : ℕ => sigVal ts (i : ℤ)) :=
-  series_eq_of_isZT (zt_closed_form_sound ts h) n
+  series_eq_of_isZT (zt_closed_form_sound_partial ts h) n
 
 /-! ## 4. Difference equation, transfer function, impulse response, recursion -/
 
